@@ -99,6 +99,7 @@ PROP = [  # (subject fragment, property, also)
  ("SELECT *, COUNT(*) is left to row execution", "C03", ""),
  ("integer-literal predicate fast path compares DOUBLE/NUMERIC/FLOAT/REAL columns as f64", "C03", ""),
  ("row-path SUM/AVG accumulate FLOAT/REAL/DOUBLE values in f64", "C03", ""),
+ ("ON UPDATE actions through several foreign keys of one child row are all applied", "C12", ""),
 ]
 def main():
     root = sys.argv[1] if len(sys.argv) > 1 else "/verif"
